@@ -133,6 +133,18 @@ func genC11(tier string, rng *Rng) {
 	}
 	_ = gl
 
+	// ---- wait-group discipline (verif hook): the writer goroutine of the first connection is held
+	// at its start for 1.6 s; the panel drops the connection at once and refuses further dials;
+	// the context is cancelled 300 ms after the disconnect; wg.Wait() (started right after the
+	// cancel) must not return before that goroutine has finished
+	{
+		lost := ConnScript{Items: []Item{ackItem()}, Segs: []SegCut{{0, 6}}, End: "close", EndT: 60}
+		add("wg-writer-held", &Scenario{Cancel: 360, HookDelay: 1600, Conns: []ConnScript{lost}})
+		lostA := ConnScript{Items: []Item{ascLine("RDY")}, Segs: []SegCut{{0, 4}}, End: "reset", EndT: 60}
+		add("wg-writer-held", &Scenario{Cancel: 360, HookDelay: 1600, Conns: []ConnScript{lostA}})
+	}
+
+	// ---- panel absent / refusing, accepting but silent
 	add("absent", &Scenario{Cancel: 800})
 	add("absent", &Scenario{Cancel: 3500})
 	add("absent-cfg", &Scenario{Cancel: 1500, UseCfg: true, NoConn: 1})
